@@ -171,11 +171,11 @@ var SigmaT = []string{
 	"+ ", "- ", "* ", "< ", "<< ", "? ", ": ", ".. ", "::", "! ", "&& ", "|| ", "def ", "end ", "class ", "module ", "if ",
 	"elsif ", "else ", "unless ", "case ", "when ", "in ", "while ", "for ", "do ", "return ", "yield ", "begin ", "rescue ",
 	"then ", "break ", "private ", "attr_reader ", "include ", "p ", "dbtp ", "push ", "replace ", "merge ", "each ", "new ",
-	"is_a? ", "nil? ", "<<EOS\n", "%w", "#{", "=begin\n", "` ", "# c", "\"s", "% ", "> ", "a:\"b",
+	"is_a? ", "nil? ", "<<EOS\n", "%w", "#{", "=begin\n", "` ", "# c", "\"s", "% ", "> ", "a:\"b", "\"q\nr\" ",
 }
 
 // SigmaHot: tokens that open/close constructs (used for deeper strings and insert/replace deviations).
 var SigmaHot = []string{
 	"x ", "A ", "1 ", "\"s\" ", ":s ", "k: ", "= ", ".", ", ", "(", ") ", " [", "] ", "{ ", "} ", "| ", "\n",
-	"def ", "end ", "class ", "if ", "else ", "case ", "in ", "do ", "< ", "self ", "while ", "each ", "new ",
+	"def ", "end ", "class ", "if ", "else ", "case ", "in ", "do ", "< ", "self ", "while ", "each ", "new ", "\"q\nr\" ",
 }
